@@ -464,11 +464,14 @@ where
                 let current = self.state();
                 match current {
                     CoroutineState::Running => {
+                        // both requests belong to this yield: take the wake-up time off the thread
+                        // even when the yield turns out to be a cancel (the signal may land after
+                        // `until_with` has pushed its time and before the coroutine switched out)
+                        let timestamp = Suspender::<Yield, Param>::timestamp();
                         if Suspender::<Yield, Param>::is_cancel() {
                             self.cancel()?;
                             return Ok(CoroutineState::Cancelled);
                         }
-                        let timestamp = Suspender::<Yield, Param>::timestamp();
                         self.suspend(y, timestamp)?;
                         Ok(CoroutineState::Suspend(y, timestamp))
                     }
